@@ -3,6 +3,7 @@ import GT.Model.Integrals
 import GT.Model.LogCond
 import GT.Model.ApproxFeature   -- [approx-feature]
 import GT.Model.Hetero  -- [hetero]
+import GT.Model.Truncated  -- [trunc]
 /-!
 # Line-protocol driver: a register machine over the model at `Float`
 
@@ -25,6 +26,7 @@ inductive Val where
   | condId (R D : Nat) (c : CondIdB R D F)
   | arr (shape : List Nat) (data : Array F)
   | feat (Dy Dx Dk : Nat) (c : FeatCondB Dy Dx Dk F)   -- [approx-feature] LRBF/LSEM conditional (R = 1)
+  | trunc (R : Nat) (t : TruncB R F)  -- [trunc]
   | empty
   | hetero (Dy Dx Da Dk : Nat) (ops : HLinkOps F) (c : HeteroB Dy Dx Da Dk F)  -- [hetero]
 
@@ -159,6 +161,18 @@ def dumpVal : Val → String
       fld "Sigma" (d3 c.Sigma) ++ " " ++ fld "Lambda" (d3 c.Lambda) ++ " " ++ fld "ln_det_Sigma" (d1 c.lnDetSigma) ++ " " ++
       extra ++ " " ++ fld "k_Lambda" (d3 kb.Lambda) ++ " " ++ fld "k_nu" (d2 kb.nu) ++ " " ++
       fld "k_ln_beta" (d1 kb.lnBeta) ++ kextra
+  | .trunc R t =>  -- [trunc] limits as floats (`±inf` for the infinite constructors)
+    let lf : Lim F → F := fun l => match l with
+      | .negInf => -(1.0 / 0.0) | .fin x => x | .posInf => 1.0 / 0.0
+    let lims (a : Arr R (Lim F)) : Array F := a.data.map lf
+    s!"trunc {if t.isPdf then "pdf" else "measure"} {R} " ++ fld "lower_limit" (lims t.lower) ++ " " ++
+      fld "upper_limit" (lims t.upper) ++ " " ++ fld "alpha" (lims t.alpha) ++ " " ++ fld "beta" (lims t.beta) ++ " " ++
+      fld "constant" (d1 t.constant) ++ " " ++ fld "m_Lambda" (d3 t.measure.Lambda) ++ " " ++
+      fld "m_nu" (d2 t.measure.nu) ++ " " ++ fld "m_ln_beta" (d1 t.measure.lnBeta) ++ " " ++
+      fld "d_Sigma" (d3 t.density.Sigma) ++ " " ++ fld "d_mu" (d2 t.density.mu) ++ " " ++
+      fld "d_Lambda" (d3 t.density.Lambda) ++ " " ++ fld "d_nu" (d2 t.density.nu) ++ " " ++
+      fld "d_ln_beta" (d1 t.density.lnBeta) ++ " " ++ fld "d_lnZ" (d1 t.density.lnZ) ++ " " ++
+      fld "d_ln_det_Sigma" (d1 t.density.lnDetSigma)
   | .empty => "empty"
   | .hetero Dy Dx Da Dk ops c =>  -- [hetero]
     s!"hetero {ops.name} {Dy} {Dx} {Da} {Dk} " ++ fld "M" (d3 c.M) ++ " " ++ fld "b" (d2 c.b) ++ " " ++
